@@ -28,18 +28,41 @@ pub enum Place {
     MapEntry(Box<Place>, String, Ty, String),
     /// field of an enum struct-variant reached through a `&mut` binding: base, Lean enum name, variant, field, type, site
     VariantField(Box<Place>, String, String, String, Ty, String),
+    /// sub-slice `base[lo..hi]` handed to a callee as `&mut [T]`: base, lo, hi (`None` = to the end), slice type, site
+    Range(Box<Place>, String, Option<String>, Ty, String),
+    /// inside a fn with an `Option<&mut T>` parameter `p`: the `T` behind `Some` (base = the parameter), type, site
+    OptSome(Box<Place>, Ty, String),
+    /// at a call: the argument `Some(&mut place)` for an `Option<&mut T>` parameter (the option type)
+    OptWrap(Box<Place>, Ty, String),
+    /// at a call: the argument `None` for an `Option<&mut T>` parameter
+    Nowhere(Ty),
 }
 
 impl Place {
     pub fn root(&self) -> String {
         match self {
             Place::Var(n, _) => n.clone(),
-            Place::Field(b, _, _) | Place::Index(b, _, _, _) | Place::MapEntry(b, _, _, _) | Place::VariantField(b, _, _, _, _, _) => b.root(),
+            Place::Field(b, _, _)
+            | Place::Index(b, _, _, _)
+            | Place::MapEntry(b, _, _, _)
+            | Place::VariantField(b, _, _, _, _, _)
+            | Place::Range(b, _, _, _, _)
+            | Place::OptSome(b, _, _)
+            | Place::OptWrap(b, _, _) => b.root(),
+            Place::Nowhere(_) => "_".to_string(),
         }
     }
     pub fn ty(&self) -> Ty {
         match self {
-            Place::Var(_, t) | Place::Field(_, _, t) | Place::Index(_, _, t, _) | Place::MapEntry(_, _, t, _) | Place::VariantField(_, _, _, _, t, _) => t.clone(),
+            Place::Var(_, t)
+            | Place::Field(_, _, t)
+            | Place::Index(_, _, t, _)
+            | Place::MapEntry(_, _, t, _)
+            | Place::VariantField(_, _, _, _, t, _)
+            | Place::Range(_, _, _, t, _)
+            | Place::OptSome(_, t, _)
+            | Place::OptWrap(_, t, _)
+            | Place::Nowhere(t) => t.clone(),
         }
     }
 }
@@ -63,6 +86,7 @@ pub struct Cx<'g> {
     mut_methods: Vec<String>,
     /// `&mut` parameters of semantic-model types (returned with the result)
     pub mut_params: Vec<String>,
+    pub opt_mut_params: Vec<String>,
     /// `let x = &mut place;` aliases: variable -> place (every use re-reads / writes the place)
     aliases: Vec<Vec<(String, Place)>>,
     /// enclosing `while` loops: the tuple of loop-carried variables of each
@@ -78,6 +102,8 @@ pub struct Cx<'g> {
     pub value_carry: Vec<Vec<String>>,
     /// `let oct = OctetsMut::with_slice(&mut buffer)`: the buffer a cursor variable writes into
     pub pending_backing: Option<Place>,
+    /// `let w = Cursor::new(..)`: `Some(true)` when the variable is later used as a writer
+    pub cursor_kind_hint: Option<bool>,
     pub backings: Vec<(String, Place)>,
     /// locals that hold values computed from ignored fields / floats (no Lean binding exists for them)
     pub ignored_locals: Vec<String>,
@@ -116,6 +142,7 @@ impl<'g> Cx<'g> {
             self_dirty: false,
             mut_methods,
             mut_params: Vec::new(),
+            opt_mut_params: Vec::new(),
             aliases: vec![Vec::new()],
             loop_stack: Vec::new(),
             ro: vec![Vec::new()],
@@ -124,6 +151,7 @@ impl<'g> Cx<'g> {
             fuel_next: 0,
             value_carry: Vec::new(),
             pending_backing: None,
+            cursor_kind_hint: None,
             backings: Vec::new(),
             ignored_locals: Vec::new(),
             const_ctx: false,
@@ -385,7 +413,13 @@ impl<'g> Cx<'g> {
         match p {
             Place::Var(n, _) => Some(roots.get(n).cloned().unwrap_or_else(|| lean_ident(n))),
             Place::Field(b, f, _) => Some(format!("{}.{}", self.pure_read(b, roots)?, lean_ident(f))),
-            Place::Index(_, _, _, _) | Place::MapEntry(_, _, _, _) | Place::VariantField(_, _, _, _, _, _) => None,
+            Place::OptWrap(b, _, _) => Some(format!("(some {})", self.pure_read(b, roots)?)),
+            Place::Nowhere(_) => Some("none".to_string()),
+            Place::Index(_, _, _, _)
+            | Place::MapEntry(_, _, _, _)
+            | Place::VariantField(_, _, _, _, _, _)
+            | Place::Range(_, _, _, _, _)
+            | Place::OptSome(_, _, _) => None,
         }
     }
 
@@ -393,7 +427,11 @@ impl<'g> Cx<'g> {
     pub fn pure_update(&self, p: &Place, v: String, roots: &mut std::collections::BTreeMap<String, String>) -> bool {
         match p {
             Place::Var(n, _) => {
-                roots.insert(n.clone(), v);
+                roots.insert(n.clone(), v.clone());
+                // a cursor over a buffer: the buffer holds what the cursor wrote before the error
+                if let Some((_, b)) = self.backings.iter().rev().find(|(x, _)| x == n).cloned() {
+                    return self.pure_update(&b, format!("{}.buf", v), roots);
+                }
                 true
             }
             Place::Field(b, f, _) => match self.pure_read(b, roots) {
@@ -406,6 +444,22 @@ impl<'g> Cx<'g> {
             },
             Place::MapEntry(b, k, _, _) => match self.pure_read(b, roots) {
                 Some(bt) => self.pure_update(b, format!("(RustSem.Map.insert {} {} {})", bt, k, v), roots),
+                None => false,
+            },
+            Place::OptSome(b, _, _) => self.pure_update(b, format!("(some {})", v), roots),
+            Place::OptWrap(b, _, _) => match self.pure_read(b, roots) {
+                Some(bt) => self.pure_update(b, format!("(Option.getD {} {})", v, bt), roots),
+                None => false,
+            },
+            Place::Nowhere(_) => true,
+            Place::Range(b, lo, hi, _, _) => match self.pure_read(b, roots) {
+                Some(bt) => {
+                    let tail = match hi {
+                        Some(h) => format!(" ++ List.drop {} {}", h, bt),
+                        None => String::new(),
+                    };
+                    self.pure_update(b, format!("(List.take {} {} ++ {}{})", lo, bt, v, tail), roots)
+                }
                 None => false,
             },
             Place::VariantField(b, en, vn, f, _, _) => match self.pure_read(b, roots) {
@@ -586,8 +640,10 @@ impl<'g> Cx<'g> {
                 syn::Stmt::Local(l) => {
                     // `let x = f(..)?;` with a const-generic `f`: the array length may only be fixed by a later use
                     self.array_len_lookahead = self.infer_array_len(l, &items[idx + 1..]);
+                    self.cursor_kind_hint = self.infer_cursor_kind(l, &items[idx + 1..]);
                     let r = self.local(l, &mut stmts);
                     self.array_len_lookahead = None;
+                    self.cursor_kind_hint = None;
                     r?
                 }
                 syn::Stmt::Item(syn::Item::Use(u)) => self.use_item(u)?,
@@ -830,6 +886,115 @@ impl<'g> Cx<'g> {
 
     /// `let x = …;` without annotation: if a later struct / variant literal of the block initialises an array-typed
     /// field with `x`, that field's declared length (Rust infers the same: it is the only constraint on the length)
+    /// `let w = [&mut] io::Cursor::new(..);`: is `w` used as a writer (`Some(true)`) or a reader (`Some(false)`) by the
+    /// statements that follow (`w.write_all(..)` / `w.read_exact(..)`, or `w` passed to a parameter of type
+    /// `impl io::Write` / `impl io::Read`)?
+    fn infer_cursor_kind(&mut self, l: &syn::Local, rest: &[syn::Stmt]) -> Option<bool> {
+        let name = match &l.pat {
+            syn::Pat::Ident(pi) if pi.subpat.is_none() => pi.ident.to_string(),
+            _ => return None,
+        };
+        let mut init: &syn::Expr = match &l.init {
+            Some(i) => &i.expr,
+            None => return None,
+        };
+        loop {
+            match init {
+                syn::Expr::Reference(r) => init = &r.expr,
+                syn::Expr::Paren(p) => init = &p.expr,
+                _ => break,
+            }
+        }
+        let is_cursor_new = match init {
+            syn::Expr::Call(c) => match &*c.func {
+                syn::Expr::Path(p) => {
+                    let segs: Vec<String> = p.path.segments.iter().map(|x| x.ident.to_string()).collect();
+                    segs.len() >= 2 && segs[segs.len() - 2] == "Cursor" && segs[segs.len() - 1] == "new"
+                }
+                _ => false,
+            },
+            _ => false,
+        };
+        if !is_cursor_new {
+            return None;
+        }
+        struct Find<'n, 'g> {
+            name: &'n str,
+            g: &'g Globals,
+            hit: Option<bool>,
+        }
+        impl<'n, 'g> Find<'n, 'g> {
+            fn is_var(&self, e: &syn::Expr) -> bool {
+                let mut e = e;
+                loop {
+                    match e {
+                        syn::Expr::Reference(r) => e = &r.expr,
+                        syn::Expr::Paren(p) => e = &p.expr,
+                        _ => break,
+                    }
+                }
+                matches!(e, syn::Expr::Path(p) if p.path.is_ident(self.name))
+            }
+            fn by_param(&mut self, fname: &str, idx: usize) {
+                for ((_, n), infos) in self.g.fns.iter() {
+                    if n == fname {
+                        for info in infos {
+                            if let Some((_, Ty::Named(t))) = info.params.get(idx) {
+                                if t == "WriteCursor" && self.hit.is_none() {
+                                    self.hit = Some(true);
+                                } else if t == "ReadCursor" && self.hit.is_none() {
+                                    self.hit = Some(false);
+                                }
+                            }
+                        }
+                    }
+                }
+            }
+        }
+        impl<'ast, 'n, 'g> Visit<'ast> for Find<'n, 'g> {
+            fn visit_expr_method_call(&mut self, m: &'ast syn::ExprMethodCall) {
+                if self.hit.is_none() {
+                    if self.is_var(&m.receiver) {
+                        let n = m.method.to_string();
+                        if n == "write_all" || n == "write" {
+                            self.hit = Some(true);
+                        } else if n == "read_exact" {
+                            self.hit = Some(false);
+                        }
+                    }
+                    for (i, a) in m.args.iter().enumerate() {
+                        if self.is_var(a) {
+                            self.by_param(&m.method.to_string(), i);
+                        }
+                    }
+                }
+                syn::visit::visit_expr_method_call(self, m);
+            }
+            fn visit_expr_call(&mut self, c: &'ast syn::ExprCall) {
+                if self.hit.is_none() {
+                    if let syn::Expr::Path(p) = &*c.func {
+                        if let Some(last) = p.path.segments.last() {
+                            for (i, a) in c.args.iter().enumerate() {
+                                if self.is_var(a) {
+                                    self.by_param(&last.ident.to_string(), i);
+                                }
+                            }
+                        }
+                    }
+                }
+                syn::visit::visit_expr_call(self, c);
+            }
+        }
+        let mut f = Find { name: &name, g: self.g, hit: None };
+        for st in rest {
+            f.visit_stmt(st);
+            if f.hit.is_some() {
+                break;
+            }
+        }
+        f.hit
+    }
+
     fn infer_array_len(&mut self, l: &syn::Local, rest: &[syn::Stmt]) -> Option<String> {
         let name = match &l.pat {
             syn::Pat::Ident(pi) if pi.subpat.is_none() => pi.ident.to_string(),
@@ -1465,6 +1630,31 @@ impl<'g> Cx<'g> {
                     }
                 }
             }
+            // `if let Some(x) = p { … }` for an `Option<&mut T>` parameter `p`: `x` is an alias of the `T` behind it
+            if let (syn::Pat::TupleStruct(ts), syn::Expr::Path(pp)) = (&*l.pat, &*l.expr) {
+                if pp.path.segments.len() == 1 && ts.path.is_ident("Some") && ts.elems.len() == 1 {
+                    let pname = pp.path.segments[0].ident.to_string();
+                    if self.opt_mut_params.contains(&pname) && self.alias_of(&pname).is_none() {
+                        if let syn::Pat::Ident(pi) = &ts.elems[0] {
+                            if pi.by_ref.is_none() && pi.subpat.is_none() {
+                                let name = pi.ident.to_string();
+                                self.check_local_name(&name, l.pat.span())?;
+                                let vt = match self.lookup(&pname) {
+                                    Some(Ty::Opt(t)) => *t,
+                                    _ => return self.bail(l.expr.span(), "an `Option<&mut T>` parameter is expected here"),
+                                };
+                                let site = self.site(&*l.expr);
+                                let cur = lean_ident(&pname);
+                                self.pending_aliases.push((name.clone(), Place::OptSome(Box::new(Place::Var(pname.clone(), Ty::Opt(Box::new(vt.clone())))), vt.clone(), site)));
+                                let (dt, tt, div_t) = self.block(&i.then_branch, tail, &[(name, vt)])?;
+                                let (de, te, _) = else_doc(self, if div_t { None } else { Some(tt.clone()) })?;
+                                let ty = if div_t { te } else { tt };
+                                return Ok((Doc::If(format!("(Option.isSome {})", cur), Box::new(dt), Box::new(de)), ty));
+                            }
+                        }
+                    }
+                }
+            }
             // `if let Some(x) = map.get_mut(&k) { … }`: `x` is an alias of the entry
             if let (syn::Pat::TupleStruct(ts), syn::Expr::MethodCall(gm)) = (&*l.pat, &*l.expr) {
                 if gm.method == "get_mut" && gm.args.len() == 1 && ts.path.is_ident("Some") && ts.elems.len() == 1 {
@@ -2052,8 +2242,29 @@ impl<'g> Cx<'g> {
                 Ok(Place::Field(Box::new(base), fname, fty))
             }
             syn::Expr::Index(ix) => {
-                if matches!(&*ix.index, syn::Expr::Range(_)) {
-                    return self.bail(e.span(), "a sub-range is only supported as the receiver of `copy_from_slice`");
+                if let syn::Expr::Range(r) = &*ix.index {
+                    // `&mut base[lo..hi]` (argument of a callee with a `&mut [T]` parameter)
+                    if !matches!(r.limits, syn::RangeLimits::HalfOpen(_)) {
+                        return self.bail(r.span(), "only half-open ranges are supported");
+                    }
+                    let base = self.place(&ix.expr, stmts)?;
+                    let et = match base.ty() {
+                        Ty::List(t, _) => *t,
+                        _ => return self.bail(ix.expr.span(), "slicing a value that is not an array / Vec / slice"),
+                    };
+                    if r.start.is_none() && r.end.is_none() {
+                        return Ok(base);
+                    }
+                    let lo = match &r.start {
+                        Some(a) => self.expr(a, Some(&Ty::usize()), stmts)?.0,
+                        None => "0".to_string(),
+                    };
+                    let hi = match &r.end {
+                        Some(b) => Some(self.expr(b, Some(&Ty::usize()), stmts)?.0),
+                        None => None,
+                    };
+                    let site = self.site(e);
+                    return Ok(Place::Range(Box::new(base), lo, hi, Ty::List(Box::new(et), ListKind::Slice), site));
                 }
                 let base = self.place(&ix.expr, stmts)?;
                 let et = match base.ty() {
@@ -2130,6 +2341,24 @@ impl<'g> Cx<'g> {
                 stmts.push(Stmt::Bind(t.clone(), Doc::atom(format!("RustSem.unwrap ({}.{}.{}? {}) {}", en, lean_ident(vn), f, bt, site))));
                 Ok(t)
             }
+            Place::Range(b, lo, hi, _, site) => {
+                let bt = self.read(b, stmts)?;
+                let h = hi.clone().unwrap_or_else(|| format!("(RustSem.len {})", bt));
+                let t = self.fresh();
+                stmts.push(Stmt::Bind(t.clone(), Doc::atom(format!("RustSem.slice {} {} {} {}", bt, lo, h, site))));
+                Ok(t)
+            }
+            Place::OptSome(b, _, site) => {
+                let bt = self.read(b, stmts)?;
+                let t = self.fresh();
+                stmts.push(Stmt::Bind(t.clone(), Doc::atom(format!("RustSem.unwrap {} {}", bt, site))));
+                Ok(t)
+            }
+            Place::OptWrap(b, _, _) => {
+                let bt = self.read(b, stmts)?;
+                Ok(format!("(some {})", bt))
+            }
+            Place::Nowhere(_) => Ok("none".to_string()),
         }
     }
 
@@ -2178,6 +2407,22 @@ impl<'g> Cx<'g> {
             Place::VariantField(b, en, vn, f, _, _) => {
                 let bt = self.read(b, stmts)?;
                 self.write(b, format!("({}.{}.set_{} {} {})", en, lean_ident(vn), f, bt, v), stmts)
+            }
+            Place::OptSome(b, _, _) => self.write(b, format!("(some {})", v), stmts),
+            Place::OptWrap(b, _, site) => {
+                // the callee was given `Some(&mut place)`: it returns `some` of what it left there
+                let t = self.fresh();
+                stmts.push(Stmt::Bind(t.clone(), Doc::atom(format!("RustSem.unwrap {} {}", v, site))));
+                self.write(b, t, stmts)
+            }
+            Place::Nowhere(_) => Ok(()),
+            Place::Range(b, lo, hi, _, site) => {
+                // what the callee left in the sub-slice it was given (same length: it only had a `&mut [T]`)
+                let bt = self.read(b, stmts)?;
+                let h = hi.clone().unwrap_or_else(|| format!("(RustSem.len {})", bt));
+                let t = self.fresh();
+                stmts.push(Stmt::Bind(t.clone(), Doc::atom(format!("RustSem.splice {} {} {} {} {}", bt, lo, h, v, site))));
+                self.write(b, t, stmts)
             }
         }
     }
